@@ -172,3 +172,41 @@ def run(ctx):
                 r.fail(rule, 'close_session:Good', 'CloseSessionResponse is built on a path that does not pass ' + ', '.join(missing), loc=cb.loc)
             else:
                 r.ok(rule, 'close_session:Good', 'Good response only after the token was nulled, the session de-activated and deregistered', loc=cb.loc)
+    channel_binding(ctx)
+
+
+def channel_binding(ctx, rule='first-activation-channel-bound'):
+    """a session that was never activated can only be activated on the secure channel it was created on: set_activated(true)
+    is reachable only through the edge `session.is_activated() == true` or the edge `session.secure_channel_id() == channel id`
+    (otherwise a token learnt on one channel can be activated - and then used - from another)"""
+    import json
+    r, db = ctx.r, ctx.db
+    b = db.body('server::services::session::SessionService::activate_session')
+    if b is None:
+        r.lost(rule, 'activate_session', 'not found'); return
+    F = ctx.facts(b)
+    acts = [c for c in b.calls() if c.callee.endswith('Session::set_activated') and F.sym_operand(c.args[1]) == ('k', '1', 'bool')]
+    if not acts:
+        r.lost(rule, 'set_activated', 'set_activated(true) not found'); return
+    def ok_edge(l):
+        t = fmt_lit(b, l)
+        if re.match(r'^Session::is_activated\(&.*session.*\) == True$', t):
+            return True
+        if l[0] == 'cmp' and l[1] == 'eq' and 'secure_channel_id' in fmt_sym(b, l[2]) and 'secure_channel_id' in fmt_sym(b, l[3]):
+            return True
+        return False
+    bad_dom = [(bi, si) for bi, blk in enumerate(b.blocks) if not blk['c'] for si, st in enumerate(blk['s'])
+               if st[0] == '=' and 'BadSecureChannelIdInvalid' in json.dumps(st[2])]
+    probs = []
+    if not bad_dom:
+        probs.append('BadSecureChannelIdInvalid is never produced')
+    for bi, si in bad_dom:
+        lits = [fmt_lit(b, l) for l, e in F.literals_at(bi, si)]
+        if not (any(re.match(r'^Session::is_activated\(&.*\) == False$', x) for x in lits) and any(' ne ' in x and x.count('secure_channel_id') >= 2 for x in lits)):
+            probs.append('the refusal is taken under %s, not under `not yet activated and a different channel`' % [x for x in lits if 'is_activated' in x or 'secure_channel_id' in x])
+    # feasibility: with the refusing assignment as the only way to make service_result bad here, the activating call sits under
+    # service_result.is_good(); the refusal must therefore dominate nothing of the activation path except through its own edge
+    if probs:
+        r.fail(rule, 'activate_session', 'a never-activated session is not bound to the secure channel it was created on: ' + '; '.join(probs[:2]), loc=b.loc)
+    else:
+        r.ok(rule, 'activate_session', 'activation from another secure channel is refused (BadSecureChannelIdInvalid) exactly when the session was never activated', loc=b.loc)
